@@ -340,6 +340,12 @@ Definition getDimensionUnit (d : dimd) : string :=
   | DRange _ u => dim_unit_str u
   end.
 
+(** getDimensionUnit on a data-frame dimension WITH a column index: the unit of that column, "none" when it is empty
+    ([getDimensionUnit (DFrame n)] is the case without a column index) *)
+Definition frame_dim_unit (column_unit : option string) : string :=
+  let unit := match column_unit with Some u => u | None => "none" end in
+  if sempty unit then "none" else unit.
+
 (** one dimension of a request after padding: position, extent (or padded last coordinate), unit, descriptor *)
 Record dimreq := mkReq { r_pos : F64; r_ext : F64; r_unit : string; r_dim : dimd }.
 
